@@ -5,7 +5,7 @@ import ChythonModel.Proofs.C05Rules
 import ChythonModel.Proofs.C05Thiele
 import ChythonModel.Proofs.C05Round
 import ChythonModel.Proofs.C05Prepare
-import ChythonModel.Proofs.C05SearchNoDup
+import ChythonModel.Proofs.C05SearchComplete
 /-!
 # C05 — Kekulé and aromatic forms describe the same molecule; conversions are stable
 
@@ -34,7 +34,8 @@ that an accepted output satisfies the declarative clauses of the property, for e
   reorders, and — **soundness** — on every component `__prepare_rings` can hand over that has no ambiguous
   ("pyrrole or pyridine") atom, every yielded path assigns every skeleton bond exactly once, order 1 or 2, with the
   double bonds a perfect matching of the atoms outside `double_bonded` that avoids `double_bonded`; on the same
-  components no Kekulé form is yielded twice.
+  components no Kekulé form is yielded twice, and — **completeness** — a generator run to its end yields every Kekulé
+  form of the component: `InvalidAromaticRing` is raised only if none exists.
 -/
 namespace ChythonModel.Props.C05
 open ChythonModel.Model ChythonModel.Model.C05 ChythonModel.Model.C05T ChythonModel.Spec.Kekule ChythonModel.Proofs.C05
@@ -487,23 +488,77 @@ theorem search_sound_partial (rings : Adj) (db : List Nat) (buf limit : Nat) (G 
   have h := component_sound G db buf limit y hy
   exact ⟨h.edges, h.once, h.all, h.matching⟩
 
-/-- **Completeness, full statement** (not proved; evaluated against an independent enumeration of all matchings on
-    every component with ≤ 4 (quick) / 5 (thorough) atoms × all labelings and on the recorded calls): when the
-    start atom is not ambiguous (`double_bonded` non-empty or some non-condensed atom outside `pyrroles`) and the
-    generator is run to its end, every such matching is yielded; in particular `InvalidAromaticRing` is raised only if
-    none exists. (With an ambiguous start atom the code forces a double bond on it: 1624 of 237 000 enumerated cases
+/-- **Completeness, full statement**: when the start atom is not ambiguous (`double_bonded` non-empty or some
+    non-condensed atom outside `pyrroles`) and the generator is run to its end without exception, every admissible
+    assignment of orders 1/2 to the skeleton bonds (an atom of `double_bonded` gets no double bond, an atom of
+    `pyrroles` at most one, every other atom exactly one) is yielded; in particular `InvalidAromaticRing` is raised only
+    if none exists. (With an ambiguous start atom the code forces a double bond on it: 1624 of 237 000 enumerated cases
     miss forms, 60 raise although a form exists — see design/C05.md.) -/
 def SearchComplete : Prop :=
-  ∀ (rings : Adj) (db pyr : List Nat) (buf limit : Nat), GraphOK rings →
+  ∀ (rings : Adj) (db pyr : List Nat) (buf limit : Nat), GraphOK rings → (∀ p ∈ rings, 2 ≤ p.2.length) →
     (∀ v ∈ pyr, db.contains v = false → (nbr rings v).length = 2) →
     (db ≠ [] ∨ ∃ p ∈ rings, p.2.length = 2 ∧ pyr.contains p.1 = false) →
     (kekuleComponent rings db pyr buf limit).2 ≠ .more → (∀ e, (kekuleComponent rings db pyr buf limit).2 ≠ .crashed e) →
     ∀ f : Nat × Nat → Nat,
       (∀ v w, w ∈ nbr rings v → (f (ukey v w) = 1 ∨ f (ukey v w) = 2)) →
       (∀ v, nbr rings v ≠ [] →
-        let d := ((nbr rings v).filter fun w => f (ukey v w) == 2).length
+        let d := (nbr rings v).countP fun w => f (ukey v w) == 2
         if db.contains v = true then d = 0 else if pyr.contains v = true then d ≤ 1 else d = 1) →
       ∃ y ∈ (kekuleComponent rings db pyr buf limit).1, ∀ x ∈ y, x.2.2 = f (key x)
+
+/-- **Completeness, proved part**: the full statement for components without ambiguous atoms (then no condition on the
+    start atom is needed). Proof (`Proofs/C05SearchComplete.lean`): `search_plan_complete` (below) + the invariant of
+    `search_sound_partial` + the stack discipline "only the entry on top of a level carries a double bond or a depth
+    tag" (so a ring closure always meets a single-bonded pending entry) + for every form the initial level that agrees
+    with it at the start atom. Excluded: `pyrroles ≠ ∅` (evaluated per run against the independent enumeration). -/
+theorem search_complete_partial (rings : Adj) (db : List Nat) (buf limit : Nat) (G : GraphOK rings)
+    (hk : ∀ p ∈ rings, 2 ≤ p.2.length)
+    (h1 : (kekuleComponent rings db [] buf limit).2 ≠ .more)
+    (h2 : ∀ e, (kekuleComponent rings db [] buf limit).2 ≠ .crashed e)
+    (f : Nat × Nat → Nat) (hord : ∀ v w, w ∈ nbr rings v → (f (ukey v w) = 1 ∨ f (ukey v w) = 2))
+    (hdeg : ∀ v, nbr rings v ≠ [] →
+      (nbr rings v).countP (fun w => f (ukey v w) == 2) = if db.contains v = true then 0 else 1) :
+    ∃ y ∈ (kekuleComponent rings db [] buf limit).1, ∀ x ∈ y, x.2.2 = f (key x) :=
+  component_complete G hk db buf limit h1 h2 ⟨hord, hdeg⟩
+
+/-- … in particular `_kekule_component` raises `InvalidAromaticRing('kekule form not found')` **only if the component
+    has no Kekulé form** (prepared components without ambiguous atoms) -/
+theorem search_raises_only_without_form (rings : Adj) (db : List Nat) (buf limit : Nat) (G : GraphOK rings)
+    (hk : ∀ p ∈ rings, 2 ≤ p.2.length) (h : (kekuleComponent rings db [] buf limit).2 = .raised) :
+    ¬ ∃ f : Nat × Nat → Nat, ValidFormR rings db f := by
+  rintro ⟨f, VF⟩
+  have h1 : (kekuleComponent rings db [] buf limit).2 ≠ .more := by rw [h]; exact fun h => Status.noConfusion h
+  have h2 : ∀ e, (kekuleComponent rings db [] buf limit).2 ≠ .crashed e := by
+    intro e; rw [h]; exact fun h => Status.noConfusion h
+  obtain ⟨y, hy, -⟩ := component_complete G hk db buf limit h1 h2 VF
+  -- a raise means nothing was yielded
+  unfold kekuleComponent at h hy
+  simp only at h hy
+  split at h
+  · cases h
+  · split at h
+    · cases h
+    · split at h
+      · rename_i hcr hlim hemp
+        simp only [hcr, hlim, hemp, if_false, if_true] at hy
+        have hsub := feedAll_sub [] (searchRaw rings db [] limit).found ⟨buf, []⟩ y hy
+        rw [List.isEmpty_iff.1 hemp] at hsub
+        simp at hsub
+      · cases h
+
+/-- **local completeness** (any prepared atom, no ambiguous atoms): if `g` prescribes orders for the forward neighbours
+    such that the atom gets exactly one double bond in all (entered / closing / pushed; none for `double_bonded`) and no
+    double bond goes to `double_bonded`, the plan is not dead, raises nothing, and one continuation pushes exactly `g` -/
+theorem search_plan_complete (c : Ctx) (a p b len : Nat) (hashed : Nat → Bool) (g : Nat → Nat)
+    (nbrs : List Nat) (hn : c.rings.lookup a = some nbrs) (hL : nbrs.length ≤ 3)
+    (hP : p ∈ nbrs) (hpyr : c.pyr = []) (hb : b = 1 ∨ b = 2)
+    (hg : ∀ x ∈ forStackOf c p hashed nbrs, g x = 1 ∨ g x = 2)
+    (hdbfs : ∀ x ∈ forStackOf c p hashed nbrs, c.db.contains x = true → g x = 1)
+    (hsum : (if b = 2 then 1 else 0) + (if hasLoop c p nbrs = true ∧ loopBond c = 2 then 1 else 0) +
+      (forStackOf c p hashed nbrs).countP (fun x => g x == 2) = if c.db.contains a = true then 0 else 1) :
+    plan c a p b hashed len ≠ .dead ∧ (∀ s, plan c a p b hashed len ≠ .crash s) ∧
+    (∀ ins0 clos brs, plan c a p b hashed len = .go ins0 clos brs → ∃ br ∈ brs, ∀ e ∈ br, e.bond = g e.atom) :=
+  plan_complete g hn hL hP hpyr hb hg hdbfs hsum
 
 /-- **No duplicates, full statement**: any two yields (two different positions of the sequence `enumerate_kekule`
     walks through) give some skeleton bond different orders (`Differ`) — no Kekulé form comes twice. -/
